@@ -18,7 +18,7 @@ func init() {
 			"(b) the value stored on the miss path and the value returned derive from the same response field and the key stored is the root parameter; " +
 			"(c) the fetch's failure edge returns a non-nil error derived from the fetch error; (d) block-event handlers store (Block, Slot) of the same event; " +
 			"(e) every delete on the map is guarded by slot < minSlot with minSlot = FirstSlotOfEpoch(CurrentEpoch()-margin) — or, when cleaning swaps in a filtered copy, an entry is left out only on that edge and the scan and the swap are one write-locked critical section (no concurrent insert is lost) —, the subtraction is guarded, lock pairing and guarded-by hold for the map. " +
-			"Added with the third seeding round: (f) the header strategy the cache fetches from asks the nodes with the caller's options, passes on every successful answer, and does not coalesce requests under a key that is not taken from the request. Added with the fourth seeding round: (g) the chain time service never rounds (shared with C03.m). Added with the fifth seeding round: (h) the head-event handler withholds its store into the block-root/slot cache only when the event itself is unusable. NOT decided: that the beacon node's header belongs to the root; the size of the retention window; interleavings.",
+			"Added with the third seeding round: (f) the header strategy the cache fetches from asks the nodes with the caller's options, passes on every successful answer, and does not coalesce requests under a key that is not taken from the request. Added with the fourth seeding round: (g) the chain time service never rounds (shared with C03.m). Added with the fifth seeding round: (h) the head-event handler withholds its store into the block-root/slot cache only when the event itself is unusable. Added with the sixth seeding round and the false-alarm regression: (i) entries are inserted into the block-root cache by the setter only. NOT decided: that the beacon node's header belongs to the root; the size of the retention window; interleavings.",
 		Technique:   "SSA value provenance of returned and stored slots, guard/edge-deletion queries on the presence flag and on the cleaning comparison, error-nilness analysis of the failure edge, lock-set dataflow (pairing, guarded-by, one-critical-section for filter-and-swap)",
 		Rule:        "one obligation per (rule, return/store/delete/handler site) in the implementers of BlockRootToSlot/SetBlockRootToSlot and the functions touching the blockRootToSlot map; non-trivial = the site exists in the code and a path/provenance query was evaluated for it",
 		Assumptions: []string{"go-eth2-client returns a non-nil response with non-nil Data.Header.Message when err == nil (library decoder contract)"},
@@ -435,6 +435,16 @@ func runC18(p *core.Prog, r *core.Report, tier string) {
 		}
 	}
 	r.Floor("C18.h stores in the cache's block handler", nHB, 1)
+
+	// (i) who may insert: entries come from the setter only (block events and fetched headers go through it); nothing
+	// else — the constructor included — puts a root into the map
+	for _, f := range p.FuncsIn(cacheRel) {
+		for _, op := range core.MapOps(f) {
+			if op.Kind == "insert" && op.Field == mapField {
+				r.Check(f == setter, "C18.i", core.FnKey(f)+"|insert", p.Pos(op.Instr.Pos()), "entries are inserted by the setter", "an entry is put into the block-root cache outside the setter ("+ds.D(op.Key).String()+" -> "+ds.D(op.Val).String()+"): a root is answered with a slot no block of that root reported")
+			}
+		}
+	}
 
 	// (g) the retention window is measured from the epoch that has started: the clock the cleaner uses never rounds up
 	checkChainTimeTruncates(p, r, "C18.g", "shortly before an epoch boundary the cleaner's cut-off moves a whole epoch forward and entries still inside the retention window are removed")
